@@ -131,6 +131,27 @@ class Subjects(object):
             got, _ = self._call("%s.query" % name, src.query, S.mk_filters(F))
             exp = self.expect("%s.query" % name, got, F, name + ":query")
             res[name] = None if got is None else S.keyset([S.plain(x) for x in got])
+        # (1b) the caller's own FilterSet object, reused across sources that have attached filters: every answer as before,
+        #      and the FilterSet must still hold exactly the filters the caller put in
+        import stix2
+        FS = stix2.datastore.filters.FilterSet
+        fs_obj, exc = core.guarded(lambda: FS(S.mk_filters(F)))
+        if exc is None:
+            before = sorted(repr(f) for f in fs_obj)
+            always = stix2.Filter("type", "!=", "x-no-such-type-anywhere")     # attached, always true: answers must not change
+            for src in (self.mem, self.fs):
+                src.filters.add(always)
+            try:
+                for name, src in (("filesystem", self.fs), ("memory", self.mem), ("filesystem", self.fs)):
+                    got, _ = self._call("%s.query(FilterSet)" % name, src.query, fs_obj)
+                    self.expect("%s.query with a reused FilterSet object" % name, got, F, name + ":query-filterset-object")
+                    after = sorted(repr(f) for f in fs_obj)
+                    if after != before:
+                        self.fails.append(("query-argument-modified:FilterSet", "%s.query(FilterSet) changed the caller's FilterSet: %s -> %s" % (name, before, after)))
+                        break
+            finally:
+                for src in (self.mem, self.fs):
+                    src.filters.remove(always)
         # (2) the same filters through their routes
         for name, srcs in (("memory", [self.mem]), ("filesystem", [self.fs]), ("composite", [self.mem, self.fs])):
             got = self.routed(srcs, q, "query")
